@@ -309,6 +309,8 @@ func runC06(c *Ctx) {
 	// R4: replies are delivered when they are produced - Writer.End writes each message to the connection itself, the
 	// session writer wraps the connection directly (no buffering layer, nothing else owns the sink)
 	defer c.writeThrough("C06.R4")
+	defer c.errorCodeReturnsWriteErrors("C06.R2")
+	defer c.include("C06.S2", "C02", []string{"C02.R4"}, "a reply is delivered when its message ends, without waiting for further input: End writes the whole frame to the connection on every successful path", 6)
 	R.Exhaustive = true
 
 	hc := c.mustMethod("C06.R1", "wire", "Session", "handleCommand")
@@ -438,4 +440,43 @@ func (c *Ctx) c06DiscardState(hc *ssa.Function) {
 	}
 	R.Check(found != "", "C06.R3", "Session:no-discard-until-sync-state", c.atFn(hc), "after an ErrorResponse in the extended protocol, messages up to the next Sync are discarded without invoking callbacks (a per-session flag set on error, cleared by Sync, tested before dispatch)",
 		"flag Session."+found, "no boolean field of Session is set on errors, cleared by Sync and tested before dispatch: later messages of a failed batch are still processed")
+}
+
+// errorCodeReturnsWriteErrors: an error reported with ErrorCode is an answer, not the end of the session: ErrorCode (and
+// the frame helper below it) hand back only what the writes returned. A result of their own making (io.EOF for a
+// FATAL severity, say) makes every caller that reports a recoverable error - unknown statement, unknown portal -
+// drop the connection.
+func (c *Ctx) errorCodeReturnsWriteErrors(rule string) {
+	R := c.R
+	fns := []*ssa.Function{c.P.Func("wire", "ErrorCode")}
+	if e := c.errorEmitter(); e != nil && e != fns[0] {
+		fns = append(fns, e)
+	}
+	n := 0
+	for _, fn := range fns {
+		if fn == nil {
+			continue
+		}
+		for _, r := range returns(fn) {
+			if r.Block() == fn.Recover {
+				continue
+			}
+			var srcs []ssa.Value
+			leaves(errOperand(r), map[ssa.Value]bool{}, &srcs)
+			for _, v := range srcs {
+				n++
+				v = core.Strip(v)
+				ok := core.IsNilConst(v)
+				if ex, isEx := v.(*ssa.Extract); isEx {
+					v = ex.Tuple
+				}
+				if call, isCall := v.(*ssa.Call); isCall {
+					callee := core.StaticCallee(call)
+					ok = callee != nil && (c.P.InPkg(callee, "wire") || c.P.InPkg(callee, "buffer")) && !c.P.InPkg(callee, "errors")
+				}
+				R.Check(ok, rule, fkey(fn)+":returns-only-write-results:"+retDescr(r), c.at(r), "reporting an error to the client succeeds unless the write fails: the reporting function returns nil or the result of a write", "the result is nil or the result of a writer / frame helper call", "the error-reporting function returns a value of its own making (a sentinel such as io.EOF, a constructed error): callers that report a recoverable error - unknown statement or portal - end the session instead of answering")
+			}
+		}
+	}
+	R.Floor(rule, "results of the error-reporting functions", n, 3)
 }
